@@ -12,7 +12,7 @@ export VERIF_REPO="$R"
 mkdir -p logs
 while read -r P IDS; do
   [ -z "$P" ] && continue
-  if ! git -C "$R" apply --check "$P" 2>/dev/null; then echo "$P: SKIP (does not apply)"; continue; fi
+  if ! git -C "$R" apply --check "$PWD/$P" 2>/dev/null; then echo "$P: SKIP (does not apply)"; continue; fi
   git -C "$R" apply "$PWD/$P"
   OUT=""
   for ID in $IDS; do
